@@ -29,7 +29,7 @@ func init() {
 		Run: runC06, Workers: 16, GOMAXPROCS: 4,
 		QuickTimeout: 8 * time.Minute, ThoroughTimeout: 40 * time.Minute,
 		QuickFloor: 200, ThoroughFloor: 4000,
-		RequiredCounters: []string{"calls_compared", "keyset_comparisons", "rerequest_during_pending_removal", "late_expiry_checks", "double_releases", "sync_add_and_remove", "gated_removal_timer_templates", "concurrent_ref_cases"},
+		RequiredCounters: []string{"calls_compared", "keyset_comparisons", "rerequest_during_pending_removal", "late_expiry_checks", "double_releases", "sync_add_and_remove", "gated_removal_timer_templates", "concurrent_ref_cases", "nil_routine_constructions"},
 		Rule: "each case is a sequential history of 15-60 calls (SetKey, RemoveKey, SyncKeys with duplicates, GetKey, AddKeyRef, Release incl. double release, KeyedRefCount.RemoveKey) on a Keyed or KeyedRefCount over 1-6 keys, with and without a 30 ms release delay, routines that run until cancelled / fail at once / succeed at once, with and without a context; " +
 			"a reference model (key -> construction id, pending removal, failed) is stepped beside it and every return value and the key set after every call are compared; gated templates hold the removal-timer callback before the mutex while the key is re-requested; concurrent cases race the last Release with AddKeyRef and judge at quiescence; " +
 			"non-trivial = the history contains a re-request during a pending removal, a double release, or a SyncKeys that both adds and removes; distinct = distinct call/result sequences",
